@@ -690,7 +690,12 @@ func (cachefile *cacheFile) setData(streamID uint64, streamTime time.Time, conve
 	lastTime := streamTime
 	contentTypes := map[string][]byte{}
 	for i, convertedPacket := range convertedPackets {
-		relTime := convertedPacket.Time.Sub(lastTime)
+		// whole microseconds are stored: advance by what the reader will add, not by the
+		// exact difference, otherwise the cut-off nanoseconds add up over the packets
+		relTime := convertedPacket.Time.Sub(lastTime).Truncate(time.Microsecond)
+		if lastTime.Add(relTime).After(convertedPacket.Time) {
+			relTime -= time.Microsecond
+		}
 		bytesWritten, err := writeVarInt(writer, uint64(relTime.Microseconds()))
 		if err != nil {
 			return fmt.Errorf("failed to write relative packet time: %w", err)
